@@ -4,7 +4,10 @@ package simrt
 
 import (
 	"cmp"
+	"fmt"
+	"reflect"
 	"sort"
+	"strings"
 )
 
 // MapKeys returns the keys of m in an order decided by the simulation: the keys are sorted, put
@@ -17,6 +20,86 @@ func MapKeys[K cmp.Ordered, V any](m map[K]V) []K {
 		keys = append(keys, k)
 	}
 	sort.Slice(keys, func(i, j int) bool { return keys[i] < keys[j] })
+	return permuteKeys(keys)
+}
+
+// MapKeysAny is MapKeys for key types without an order of their own (pointers, structs,
+// interfaces): the canonical order is that of a deep, address-free rendering of the keys (what a
+// pointer points to, field by field), so that it is the same in every process. Keys that render
+// alike keep Go's native relative order; such ties are counted (Stats.MapKeyTies).
+func MapKeysAny[K comparable, V any](m map[K]V) []K {
+	type kr struct {
+		k K
+		r string
+	}
+	ks := make([]kr, 0, len(m))
+	for k := range m {
+		var b strings.Builder
+		renderKey(reflect.ValueOf(k), 3, &b)
+		ks = append(ks, kr{k, b.String()})
+	}
+	sort.SliceStable(ks, func(i, j int) bool { return ks[i].r < ks[j].r })
+	keys := make([]K, len(ks))
+	for i := range ks {
+		keys[i] = ks[i].k
+		if i > 0 && ks[i].r == ks[i-1].r && S != nil {
+			S.Stats.MapKeyTies++
+		}
+	}
+	return permuteKeys(keys)
+}
+
+func renderKey(v reflect.Value, depth int, b *strings.Builder) {
+	if !v.IsValid() {
+		b.WriteString("nil")
+		return
+	}
+	switch v.Kind() {
+	case reflect.Bool:
+		fmt.Fprint(b, v.Bool())
+	case reflect.Int, reflect.Int8, reflect.Int16, reflect.Int32, reflect.Int64:
+		fmt.Fprintf(b, "%020d", v.Int())
+	case reflect.Uint, reflect.Uint8, reflect.Uint16, reflect.Uint32, reflect.Uint64, reflect.Uintptr:
+		fmt.Fprintf(b, "%020d", v.Uint())
+	case reflect.Float32, reflect.Float64:
+		fmt.Fprint(b, v.Float())
+	case reflect.Complex64, reflect.Complex128:
+		fmt.Fprint(b, v.Complex())
+	case reflect.String:
+		fmt.Fprintf(b, "%q", v.String())
+	case reflect.Ptr, reflect.Interface:
+		if v.IsNil() {
+			b.WriteString("nil")
+		} else if depth > 0 {
+			b.WriteByte('&')
+			renderKey(v.Elem(), depth-1, b)
+		} else {
+			b.WriteString(v.Type().String())
+		}
+	case reflect.Struct:
+		b.WriteByte('{')
+		if depth > 0 {
+			for i := 0; i < v.NumField(); i++ {
+				renderKey(v.Field(i), depth-1, b)
+				b.WriteByte(',')
+			}
+		}
+		b.WriteByte('}')
+	case reflect.Slice, reflect.Array:
+		b.WriteByte('[')
+		for i := 0; i < v.Len() && i < 8 && depth > 0; i++ {
+			renderKey(v.Index(i), depth-1, b)
+			b.WriteByte(',')
+		}
+		fmt.Fprintf(b, "#%d]", v.Len())
+	case reflect.Map:
+		fmt.Fprintf(b, "map#%d", v.Len())
+	default: // func, chan, unsafe pointer: nothing stable to show but the type
+		b.WriteString(v.Type().String())
+	}
+}
+
+func permuteKeys[K any](keys []K) []K {
 	s := S
 	if s != nil && s.cfg.YieldOnMap && s.cur != nil {
 		// Starting to iterate a map is no synchronization, but code that walks a shared table twice
